@@ -58,3 +58,38 @@ package config
 //@   ensures[C20] result ==> (0 <= c.Threshold && c.Threshold <= len(signers) - 1 && idsvalid(signers) && inslice(signers, c.ID))
 //@   ensures[C20] result ==> each(signers, j, indom(c.Public, j))
 //@   loop 1: invariant each(signers[:rangeindex+1], j, indom(c.Public, j))
+
+// ---- derivation (C14, C08): the child is a NEW configuration -- the parent (its share included) is left untouched --
+// whose share is share + adjust, whose table entries are X_j + adjust*G for every party, and whose chain key is the
+// given one (or the parent's when none is given); 32-byte chain keys only.
+//@ func (*Config).Derive
+//@   nopanic[C05,C14]
+//@   requires cfgwf(c) && adjust != nil
+//@   modifies nothing
+//@   allocates
+//@   ensures[C14] result1 != nil ==> result0 == nil
+//@   ensures[C14] result1 == nil ==> (result0 != nil && fresh(result0) && fresh(result0.ECDSA) && result0.ECDSA != c.ECDSA)
+//@   ensures[C14] result1 == nil ==> scval(result0.ECDSA) == s_add(old(scval(c.ECDSA)), old(scval(adjust)))
+//@   ensures[C14] scval(c.ECDSA) == old(scval(c.ECDSA)) && scval(adjust) == old(scval(adjust))
+//@   ensures[C14] result1 == nil ==> (len(result0.ChainKey) == 32 && result0.ChainKey == ite(len(newChainKey) <= 0, c.ChainKey, newChainKey))
+//@   ensures[C14] result1 == nil ==> (result0.Threshold == c.Threshold && result0.ID == c.ID && result0.Group == c.Group && result0.Paillier == c.Paillier)
+//@   ensures[C14] result1 == nil ==> forall(k, party.ID, indom(c.Public, k) ==> (indom(result0.Public, k) && result0.Public[k] != nil && result0.Public[k] != c.Public[k] && ptval(result0.Public[k].ECDSA) == p_add(old(ptval(c.Public[k].ECDSA)), act(old(scval(adjust)), gen()))))
+//@   ensures[C14] result1 == nil ==> forall(k, party.ID, indom(result0.Public, k) ==> indom(c.Public, k))
+//@   loop 1: invariant fresh(public) && adjustG != nil && ptval(adjustG) == act(old(scval(adjust)), gen()) && cfgok(c)
+//@   loop 1: invariant c.Public == old(c.Public) && domset(c.Public) == old(domset(c.Public)) && mapval(c.Public) == old(mapval(c.Public))
+//@   loop 1: invariant forall(k, party.ID, indom(c.Public, k) ==> c.Public[k].ECDSA == old(c.Public[k].ECDSA))
+//@   loop 1: invariant forall(k, party.ID, indom(c.Public, k) ==> ptval(c.Public[k].ECDSA) == old(ptval(c.Public[k].ECDSA)))
+//@   loop 1: invariant[C14] forall(k, party.ID, visited(1, k) ==> (indom(public, k) && public[k] != nil && fresh(public[k]) && ptval(public[k].ECDSA) == p_add(old(ptval(c.Public[k].ECDSA)), ptval(adjustG))))
+//@   loop 1: invariant[C14] forall(k, party.ID, indom(public, k) ==> visited(1, k))
+//@   loop 1: invariant[C14] forall(k, party.ID, visited(1, k) ==> indom(c.Public, k))
+
+// BIP-32 child of the group key (C14): tweak and chain code come from DeriveScalar on (PublicPoint, ChainKey, i);
+// hardened indices (i >= 2^31) are the documented panic of DeriveScalar and excluded by the precondition.
+//@ func (*Config).DeriveBIP32
+//@   requires cfgwf(c)
+//@   nopanic[C14,C05]
+//@   requires i < 2147483648
+//@   ensures[C14] result1 != nil ==> result0 == nil
+//@   ensures[C14] result1 == nil ==> (result0 != nil && len(result0.ChainKey) == 32)
+//@   assert_at[C14] DeriveScalar "bip32.DeriveScalar(publicPoint, c.ChainKey, i)": arg1 == c.ChainKey && arg2 == i
+//@   assert_at[C14] Derive "return c.Derive(scalar, newChainKey)": arg0 == c && called(DeriveScalar)
